@@ -197,9 +197,14 @@ func (t *Task) fail(class, key, detail string) {
 
 // outcome helpers ------------------------------------------------------------
 
+var debugStack = os.Getenv("VSIM_DEBUG_STACK") == "1"
+
 func panicName(r interface{}) string {
 	if r == simrt.AbortPanic {
 		return "DIVERGED"
+	}
+	if debugStack {
+		fmt.Fprintf(os.Stderr, "PANIC %v\n%s\n", r, stack())
 	}
 	if e, ok := r.(error); ok {
 		return fmt.Sprintf("PANIC<%T|%s>", r, clip(e.Error(), 120))
@@ -586,6 +591,7 @@ func (w *World) run() *RunResult {
 		wg.Add(1)
 		go w.taskMain(t, &wg)
 	}
+	simrt.WaitRunEnd() // harness tasks and goroutines the library started itself
 	wg.Wait()
 	st := simrt.EndRun()
 	res := &RunResult{Stats: st, Probes: map[string]int{}, Faults: map[string]int{}}
@@ -604,6 +610,10 @@ func (w *World) run() *RunResult {
 	}
 	if st.Abort != 0 {
 		res.Tainted = true
+	}
+	if st.Abort == simrt.AbortSpawn && res.Violation == nil {
+		res.Violation = &Violation{Class: w.prop + ":goroutine-started-by-the-library-panicked", Key: w.lastParsePath(),
+			Detail: "a goroutine started by the library panicked; a real program would have crashed"}
 	}
 	failedParse := false
 	for _, t := range w.tasks {
